@@ -831,6 +831,17 @@ def path_class(path):
     return "+".join(c) or "bare"
 
 
+def primary_class(path):
+    """coarse class used in mechanism ids"""
+    if path.strip("/") == "":
+        return "empty-or-slashes"
+    if path.endswith("/"):
+        return "trailing-slash"
+    if path.startswith("/"):
+        return "leading-slash"
+    return "empty-segment" if "//" in path else "bare"
+
+
 def judge_pathsplit(ctx, path):
     from ural.utils import pathsplit
 
@@ -842,7 +853,7 @@ def judge_pathsplit(ctx, path):
     except Exception as e:
         return [("exception:" + ctx.exc("pathsplit", e), None)]
     if got not in acc:
-        return [("pathsplit:" + path_class(path), {"want": acc[0], "got": got})]
+        return [("pathsplit:" + primary_class(path), {"want": acc[0], "got": got})]
     return []
 
 
@@ -862,7 +873,7 @@ def judge_urlpathsplit(ctx, prefix, path, suffix, as_split):
     except Exception as e:
         return [("exception:" + ctx.exc("urlpathsplit", e), None)]
     if got not in acc:
-        return [("urlpathsplit:" + path_class(path) + (":SplitResult" if as_split else ""), {"url": u, "want": acc[0], "got": got})]
+        return [("urlpathsplit:" + primary_class(path) + (":SplitResult" if as_split else ""), {"url": u, "want": acc[0], "got": got})]
     return []
 
 
@@ -954,7 +965,7 @@ def install(ctx):
             return
         acc = expected_split(p)
         if acc is not None and ret not in acc:
-            ctx.viol("C20:probe:pathsplit:" + path_class(p), {"kind": "pathsplit", "path": p}, {"want": acc[0], "got": ret})
+            ctx.viol("C20:probe:pathsplit:" + primary_class(p), {"kind": "pathsplit", "path": p}, {"want": acc[0], "got": ret})
 
     pr.watch("ural.format_url:format_query_argument", on_return=on_fqa)
     pr.watch("ural.utils:pathsplit", on_return=on_pathsplit)
